@@ -168,7 +168,7 @@ def _model_line(op, impl_out):
         ordl = [p for p in parts if p.startswith("ord=")]
         if k == "-" or not ordl:
             return None
-        return "search %s %s" % (k, ordl[0][4:])
+        return "searchd %s %s %s" % (op.split()[1], k, ordl[0][4:])
     if op.startswith("search "):
         parts = impl_out.split("~")
         ordl = [p for p in parts if p.startswith("ord=")]
